@@ -236,6 +236,35 @@ def run(F, R, tier):
                 "hand-written panic – reviewed environment-only: %s" % envp.get(owner),
                 "hand-written panic!/assert!/unreachable! reachable from the service tasks; not in the reviewed environment-only table")
 
+    # helper contract behind the accepted idiom "offset = len() of what truncate_at_char_boundary returned": the helper returns a
+    # borrowed PREFIX of its argument (the argument itself or &s[..end]); anything else (an owned string with a marker appended, a
+    # suffix, another text) makes that len() a meaningless offset for the original text
+    for fid_, fn_ in F.fns.items():
+        if fn_["crate"] not in ("azure_proxy_agent", "proxy_agent_shared") or fn_["kind"] not in ("Fn", "AssocFn"):
+            continue
+        if fid_.rsplit("::", 1)[-1] not in BOUNDARY_FNS:
+            continue
+        Bh = mir.Body(fn_, F)
+        R.touched(fid_)
+        rty = str(Bh.locals[0].get("ty", ""))
+        okh = rty == "&str"
+        det = "returns %s" % rty
+        for o in Bh.origins({"k": "copy", "p": {"l": 0, "p": []}}):
+            if o[0] == "param" and not o[2] and o[1] == (Bh.locals[1].get("name") or 1):
+                continue
+            if o[0] == "call" and "Index" in o[1] and o[1].endswith("::index"):
+                tt = Bh.blocks[o[2]]["term"]
+                recv = Bh.origins(tt["args"][0])
+                rng = Bh.origins(tt["args"][1])
+                if recv and all(x[0] == "param" and not x[2] for x in recv) and rng and all(x[0] == "agg" and str(x[1]).endswith("RangeTo") for x in rng):
+                    continue
+            okh = False
+            det += "; result can be %s" % str(o)
+        R.check(okh, "C13.R2", "C13.R2:%s:prefix-contract" % fid_, "%s:%s" % (fn_["file"], fn_["line"]),
+                "%s returns a borrowed prefix of its argument (the idiom `truncate(helper(..).len())` relies on it)" % fid_.rsplit("::", 1)[-1],
+                "%s no longer returns a borrowed prefix of its argument (%s): callers that use the length of its result as a cut offset of the "
+                "original text cut inside a character" % (fid_.rsplit("::", 1)[-1], det))
+
     # ------------------------------------------------------------------ R5 "keep publishing status": not hostage to the host's replies
     from rules.c16 import bookkeeping_independent_of_poll
     R.rule("C13.R5", "status tasks start and the provisioning deadline fires whatever the host returns")
